@@ -215,46 +215,50 @@ func (c *ctx) sigEditUnits() []*unit {
 	var us []*unit
 	for _, k := range c.keys {
 		k := k
-		us = append(us, &unit{c: c, id: "sigedit/" + k.name, cost: 30, fn: func(u *unit) {
-			rng := c.r.Rand(8, 200)
-			m := randBytes(rng, 33)
-			mOther := append([]byte(nil), m...)
-			mOther[0] ^= 0x80
-			oSame, oDiff := c.other(k, true, 0), c.other(k, false, 0)
-			for mi, msg := range [][]byte{m, {}} {
-				other := mOther
-				sig, err := k.priv.Sign(msg)
-				if err != nil {
-					u.violate("sign:error/"+k.typ(), "Sign failed", map[string]any{"key": k.name})
-					return
+		nsh := c.shards(k)
+		for sh := 0; sh < nsh; sh++ {
+			sh := sh
+			us = append(us, &unit{c: c, id: fmt.Sprintf("sigedit/%s/s%dof%d", k.name, sh, nsh), cost: 30, fn: func(u *unit) {
+				rng := c.r.Rand(8, 200)
+				m := randBytes(rng, 33)
+				mOther := append([]byte(nil), m...)
+				mOther[0] ^= 0x80
+				oSame, oDiff := c.other(k, true, 0), c.other(k, false, 0)
+				for mi, msg := range [][]byte{m, {}} {
+					other := mOther
+					sig, err := k.priv.Sign(msg)
+					if err != nil {
+						u.violate("sign:error/"+k.typ(), "Sign failed", map[string]any{"key": k.name})
+						return
+					}
+					byteEdits(sig, c.all, sh, nsh, func(e edit, s2 []byte) bool {
+						u.evals++
+						u.count("sig_edit_total/"+k.typ(), 1)
+						if verifyOK(k.pub, msg, s2) {
+							// same key, same message: allowed (signature malleability is outside the statement)
+							u.count("sig_edit_still_verifies_same_key_and_message/"+k.typ(), 1)
+							u.nontr++
+						}
+						bad := ""
+						switch {
+						case verifyOK(k.pub, other, s2):
+							bad = "other-message"
+						case verifyOK(oSame.pub, msg, s2):
+							bad = "other-key-same-type"
+						case verifyOK(oDiff.pub, msg, s2):
+							bad = "other-key-other-type"
+						}
+						if bad != "" {
+							u.violate("sigedit:verifies-for-"+bad+"/"+k.typ()+"/"+e.Kind,
+								fmt.Sprintf("edited signature (%s) of %s verifies for %s", e, k.name, bad),
+								map[string]any{"key": k.name, "priv": hx(k.privBytes), "msg": hx(msg), "other_msg": hx(other), "msg_index": mi,
+									"sig": hx(sig), "edited_sig": hx(s2), "edit": e, "other_same_type": hx(oSame.pubBytes), "other_type": hx(oDiff.pubBytes)})
+						}
+						return !u.stop()
+					})
 				}
-				byteEdits(sig, c.all, func(e edit, s2 []byte) bool {
-					u.evals++
-					u.count("sig_edit_total/"+k.typ(), 1)
-					if verifyOK(k.pub, msg, s2) {
-						// same key, same message: allowed (signature malleability is outside the statement)
-						u.count("sig_edit_still_verifies_same_key_and_message/"+k.typ(), 1)
-						u.nontr++
-					}
-					bad := ""
-					switch {
-					case verifyOK(k.pub, other, s2):
-						bad = "other-message"
-					case verifyOK(oSame.pub, msg, s2):
-						bad = "other-key-same-type"
-					case verifyOK(oDiff.pub, msg, s2):
-						bad = "other-key-other-type"
-					}
-					if bad != "" {
-						u.violate("sigedit:verifies-for-"+bad+"/"+k.typ()+"/"+e.Kind,
-							fmt.Sprintf("edited signature (%s) of %s verifies for %s", e, k.name, bad),
-							map[string]any{"key": k.name, "priv": hx(k.privBytes), "msg": hx(msg), "other_msg": hx(other), "msg_index": mi,
-								"sig": hx(sig), "edited_sig": hx(s2), "edit": e, "other_same_type": hx(oSame.pubBytes), "other_type": hx(oDiff.pubBytes)})
-					}
-					return !u.stop()
-				})
-			}
-		}})
+			}})
+		}
 	}
 	return us
 }
@@ -305,75 +309,79 @@ func (c *ctx) keyEditUnits() []*unit {
 				u.violate("keyedit:unequal-key-same-id/"+k.typ()+"/"+form, "a key not Equal to the original has the original's peer ID", det())
 			}
 		}
-		us = append(us, &unit{c: c, id: "keyedit/pub/" + k.name, cost: 20, fn: func(u *unit) {
-			ss := mkSamples()
-			byteEdits(k.pubBytes, c.all, func(e edit, b []byte) bool {
-				u.evals++
-				k2, err := ic.UnmarshalPublicKey(b)
-				if err != nil {
-					u.count("pubkey_edit_rejected", 1)
-					return true
-				}
-				judgePub(u, "pb", e, b, k2, ss)
-				return !u.stop()
-			})
-			raw, _ := k.pub.Raw()
-			byteEdits(raw, c.all, func(e edit, b []byte) bool {
-				u.evals++
-				mutated := append([]byte(nil), b...)
-				k2, err := ic.PubKeyUnmarshallers[k.pub.Type()](b)
-				if err != nil {
-					u.count("pubkey_edit_rejected", 1)
-					return true
-				}
-				judgePub(u, "raw", e, mutated, k2, ss)
-				return !u.stop()
-			})
-			// the same raw bytes under every other key type
-			for t := 0; t < 4; t++ {
-				if pb.KeyType(t) == k.pub.Type() {
-					continue
-				}
-				u.evals++
-				b := refMarshalPub(t, raw)
-				if k2, err := ic.UnmarshalPublicKey(b); err == nil {
-					judgePub(u, "pb-retyped", edit{"retype", 1, t}, b, k2, ss)
-				} else {
-					u.count("pubkey_edit_rejected", 1)
-				}
-			}
-		}})
-		us = append(us, &unit{c: c, id: "keyedit/priv/" + k.name, cost: 60, fn: func(u *unit) {
-			ss := mkSamples()
-			msg := []byte("signed by a mutated private key")
-			byteEdits(k.privBytes, c.all && k.typ() != "rsa", func(e edit, b []byte) bool {
-				u.evals++
-				s2, err := ic.UnmarshalPrivateKey(b)
-				if err != nil {
-					u.count("privkey_edit_rejected", 1)
-					return true
-				}
-				u.nontr++
-				p2 := s2.GetPublic()
-				if keysEqual(p2, k.pub) {
-					u.count("privkey_edit_parsed_same_public/"+k.typ(), 1)
-					return true
-				}
-				u.count("privkey_edit_parsed_other_public/"+k.typ(), 1)
-				det := func() map[string]any {
-					return map[string]any{"key": k.name, "priv": hx(k.privBytes), "mutated_priv": hx(b), "edit": e}
-				}
-				for _, s := range ss {
-					if verifyOK(p2, s.m, s.sig) {
-						u.violate("keyedit:private-unequal-public-verifies-original-signature/"+k.typ(), "public half of a mutated private key is not Equal to the original but verifies the original's signature", det())
+		nsh := c.shards(k)
+		for sh := 0; sh < nsh; sh++ {
+			sh := sh
+			us = append(us, &unit{c: c, id: fmt.Sprintf("keyedit/pub/%s/s%dof%d", k.name, sh, nsh), cost: 20, fn: func(u *unit) {
+				ss := mkSamples()
+				byteEdits(k.pubBytes, c.all, sh, nsh, func(e edit, b []byte) bool {
+					u.evals++
+					k2, err := ic.UnmarshalPublicKey(b)
+					if err != nil {
+						u.count("pubkey_edit_rejected", 1)
+						return true
+					}
+					judgePub(u, "pb", e, b, k2, ss)
+					return !u.stop()
+				})
+				raw, _ := k.pub.Raw()
+				byteEdits(raw, c.all, sh, nsh, func(e edit, b []byte) bool {
+					u.evals++
+					mutated := append([]byte(nil), b...)
+					k2, err := ic.PubKeyUnmarshallers[k.pub.Type()](b)
+					if err != nil {
+						u.count("pubkey_edit_rejected", 1)
+						return true
+					}
+					judgePub(u, "raw", e, mutated, k2, ss)
+					return !u.stop()
+				})
+				// the same raw bytes under every other key type
+				for t := 0; t < 4 && sh == 0; t++ {
+					if pb.KeyType(t) == k.pub.Type() {
+						continue
+					}
+					u.evals++
+					b := refMarshalPub(t, raw)
+					if k2, err := ic.UnmarshalPublicKey(b); err == nil {
+						judgePub(u, "pb-retyped", edit{"retype", 1, t}, b, k2, ss)
+					} else {
+						u.count("pubkey_edit_rejected", 1)
 					}
 				}
-				if sig2, err := s2.Sign(msg); err == nil && verifyOK(k.pub, msg, sig2) {
-					u.violate("keyedit:private-other-key-signs-for-original/"+k.typ(), "signature made by a mutated private key (different public half) verifies under the original public key", det())
-				}
-				return !u.stop()
-			})
-		}})
+			}})
+			us = append(us, &unit{c: c, id: fmt.Sprintf("keyedit/priv/%s/s%dof%d", k.name, sh, nsh), cost: 60, fn: func(u *unit) {
+				ss := mkSamples()
+				msg := []byte("signed by a mutated private key")
+				byteEdits(k.privBytes, c.all && k.typ() != "rsa", sh, nsh, func(e edit, b []byte) bool {
+					u.evals++
+					s2, err := ic.UnmarshalPrivateKey(b)
+					if err != nil {
+						u.count("privkey_edit_rejected", 1)
+						return true
+					}
+					u.nontr++
+					p2 := s2.GetPublic()
+					if keysEqual(p2, k.pub) {
+						u.count("privkey_edit_parsed_same_public/"+k.typ(), 1)
+						return true
+					}
+					u.count("privkey_edit_parsed_other_public/"+k.typ(), 1)
+					det := func() map[string]any {
+						return map[string]any{"key": k.name, "priv": hx(k.privBytes), "mutated_priv": hx(b), "edit": e}
+					}
+					for _, s := range ss {
+						if verifyOK(p2, s.m, s.sig) {
+							u.violate("keyedit:private-unequal-public-verifies-original-signature/"+k.typ(), "public half of a mutated private key is not Equal to the original but verifies the original's signature", det())
+						}
+					}
+					if sig2, err := s2.Sign(msg); err == nil && verifyOK(k.pub, msg, sig2) {
+						u.violate("keyedit:private-other-key-signs-for-original/"+k.typ(), "signature made by a mutated private key (different public half) verifies under the original public key", det())
+					}
+					return !u.stop()
+				})
+			}})
+		}
 	}
 	return us
 }
